@@ -170,6 +170,15 @@ def conclude(prop, tier, seed, merged, t0, write_evidence=True):
     classify = getattr(mod, "classify", lambda v: None)
     lines = []
     status = 0
+    # ---- whole-run checks on merged data (e.g. totals across shards) -----------------
+    if hasattr(mod, "post_merge"):
+        for mon, ok, msg in mod.post_merge(merged, tier):
+            c = merged["counters"][mon]
+            c["checks"] = c.get("checks", 0) + 1
+            if not ok:
+                c["failures"] = c.get("failures", 0) + 1
+                merged["violations"].append({"monitor": mon, "msg": msg, "workload": "post_merge", "index": 0, "case": None, "info": None})
+                merged["viol_count"][mon] += 1
     # ---- violations -----------------------------------------------------------------
     seen_known, seen_new = {}, {}
     for v in merged["violations"]:
